@@ -68,6 +68,19 @@ fn gen(t: &mut Tape) -> (DiffCase, Cfg, Labels) {
     let mut cfg = gen_tagged_cfg(t, &co);
     cfg.unset("relative-paths");
     cfg.unset("navigate");
+    // `git -C sub diff` with --relative-paths: the headers name the files relative to the user's
+    // directory (GIT_PREFIX), `../` included
+    if !plain && t.chance(1, 5) {
+        cfg.flag("relative-paths");
+        cfg.env.git_prefix = Some(t.ps(&["src/", "docs/x/", "test/", "a/b/", "dir/", "lib/tests/"]).to_string());
+        cfg.env.current_dir = Some("/work/repo".to_string());
+        // (a *file* whose path is a leading part of the user's directory cannot exist)
+        let pre = cfg.env.git_prefix.clone().unwrap_or_default();
+        if case.sections().iter().any(|s| pre.starts_with(&format!("{}/", s.old_path)) || pre.starts_with(&format!("{}/", s.new_path))) {
+            cfg.unset("relative-paths");
+            cfg.env.git_prefix = None;
+        }
+    }
     let l = Labels {
         modified: t.ps(&["", "MOD:", "Δ", "modified"]).to_string(),
         added: t.ps(&["ADDED:", "new", "added:"]).to_string(),
@@ -173,11 +186,41 @@ fn check_file_header(s: &Section, text: &str, l: &Labels, cfg: &Cfg) -> Result<(
 
 const BINARY_NOT_REPORTED: &str = "binary file not reported";
 
+/// `path` (relative to the repository root) as seen from the directory `prefix` (also relative to
+/// the root): common leading components dropped, one `..` per remaining component of `prefix`
+fn relative_to(path: &str, prefix: &str) -> String {
+    if path == "/dev/null" {
+        return path.to_string();
+    }
+    let p: Vec<&str> = path.split('/').filter(|c| !c.is_empty()).collect();
+    let b: Vec<&str> = prefix.split('/').filter(|c| !c.is_empty()).collect();
+    let mut k = 0;
+    while k < p.len().saturating_sub(1) && k < b.len() && p[k] == b[k] {
+        k += 1;
+    }
+    let mut out: Vec<&str> = vec![".."; b.len() - k];
+    out.extend(&p[k..]);
+    out.join("/")
+}
+
 fn evaluate(case: &DiffCase, cfg: &Cfg, l: &Labels, out: &[u8]) -> Result<(), Failure> {
     // A header that lacks only the word `binary` is remembered and reported last, so that a
     // structural failure (duplicate, missing or misplaced header) in the same case comes first.
     let mut deferred: Option<Failure> = None;
-    let secs = case.sections();
+    let secs_in = case.sections();
+    // what the headers must show: the paths as given, or relative to GIT_PREFIX under --relative-paths
+    let shown: Vec<Section> = secs_in
+        .iter()
+        .map(|s| {
+            let mut d = (*s).clone();
+            if let (true, Some(pre)) = (cfg.has("relative-paths"), cfg.env.git_prefix.as_deref()) {
+                d.old_path = relative_to(&d.old_path, pre);
+                d.new_path = relative_to(&d.new_path, pre);
+            }
+            d
+        })
+        .collect();
+    let secs: Vec<&Section> = shown.iter().collect();
     let sc = term::decode(out);
     let crows = rows::classify_all(&sc);
     let file_omitted = cfg.get("file-style") == Some("omit");
